@@ -38,7 +38,7 @@ META = dict(
                 "on a fixed pool of extreme float64 values (DESIGN section 8). Truncated text files and truncation outside "
                 "check+data are unconstrained. Trusted: TLC, harness/tlaval.py, harness/c09_ovf.py (independent OVF parser/writer), "
                 "the embedding adapter."),
-    technique="TLA+ token model of OVF files + TLC exhaustive; spec states replayed into code with an independent OVF reader/writer and byte-level fault injection; code traces validated by TLC (C09Trace.tla)",
+    technique="TLA+ token model of OVF files + TLC exhaustive; spec states replayed into code with an independent OVF reader/writer and byte-level fault injection; code traces validated by TLC (C09Trace.tla); Apalache on the header arithmetic for meshes of any size (C09Core.tla)",
     design_ref="DESIGN.md section 7 C09, section 8",
 )
 
@@ -817,6 +817,9 @@ def embeddings(tier, seed):
 
 def run(ctx):
     df = core.import_library()
+    # the integer core (spec/C09Core.tla): Apalache discharges the header arithmetic for meshes of any size
+    from .. import apalache
+    apalache.run_stage(ctx, module="C09Core.tla", obligations=apalache.C09_OBLIGATIONS, claim=apalache.C09_CLAIM)
     embs = embeddings(ctx.tier, ctx.seed)
     RESERVED.update(dir(df.Field))
     r = ctx.model("MC_C09", f"C09_{ctx.tier}.cfg", dump=True)
